@@ -1,11 +1,14 @@
 import Proofs.RepEqStd
 /-!
-# The standard comparisons respect representation equivalence (helper lemmas for C18, `d = false`)
+# The standard comparisons respect representation equivalence (helper lemmas for C18; every `d`:
+drops nested in containers included, since `values.Equal` resolves a drop at every depth)
 -/
 
 open GoVal
 
 open Cmp
+
+variable {d : Bool}
 
 /-! ## `equalBody` looks at a sequence / map operand only through its kind and its loops -/
 
@@ -43,22 +46,31 @@ theorem Cmp.normKVs_len (d : Bool) (kvs : List (GoVal × GoVal)) : (normKVs d kv
 /-! ## `values.Equal`: the first operand may be normalised -/
 
 mutual
-theorem Cmp.equalAux_pn_left : ∀ (a : GoVal) (fl : Bool) (y : GoVal),
-    equalAux fl (prep (a.norm false)) y = equalAux fl (prep a) y
-  | .drop v, _, _ => by rw [norm_drop_false]
-  | .slice t xs, fl, y => by
+/-- `fl = true` is `values.Equal` itself (it resolves a drop first); the body after `ToLiquid` (`fl = false`) is only
+    entered with a first operand that is no drop -/
+theorem Cmp.equalAux_pn_left : ∀ (a : GoVal) (fl : Bool) (y : GoVal), (fl = true ∨ noDrop a = true) →
+    equalAux fl (prep (a.norm d)) y = equalAux fl (prep a) y
+  | .drop v, fl, y, h => by
+    rcases h with rfl | h
+    · rw [norm]
+      split
+      · rfl
+      · simp only [prep, equalAux]
+        exact equalAux_pn_left v true y (.inl rfl)
+    · simp [noDrop] at h
+  | .slice t xs, fl, y, _ => by
     simp only [norm, prep, equalAux]
     refine equalBody_seq_congr rfl rfl _ (fun sv => ?_) _ _
     cases sv with
     | vals ys => simp only [seqVals, prepList_length, normList_len, equalList_pn_left xs ys]
     | items kvs => simp only [seqVals, prepList_length, normList_len]
-  | .array t xs, fl, y => by
+  | .array t xs, fl, y, _ => by
     simp only [norm, prep, equalAux]
     refine equalBody_seq_congr rfl rfl _ (fun sv => ?_) _ _
     cases sv with
     | vals ys => simp only [seqVals, prepList_length, normList_len, equalList_pn_left xs ys]
     | items kvs => simp only [seqVals, prepList_length, normList_len]
-  | .map kt vt kvs, fl, y => by
+  | .map kt vt kvs, fl, y, _ => by
     cases hr : isRec (.map kt vt kvs) with
     | true => rw [norm_of_isRec hr]
     | false =>
@@ -66,41 +78,46 @@ theorem Cmp.equalAux_pn_left : ∀ (a : GoVal) (fl : Bool) (y : GoVal),
       simp only [prep, equalAux]
       refine equalBody_map_congr _ _ _ _ _ _ _ _ (fun k e => ?_)
       simp only [mapEntries, prepKVs_length, normKVs_len, mapAll_pn_left kvs e]
-  | .nil, _, _ | .bool _, _, _ | .int _ _, _, _ | .flt _ _, _, _ | .str _, _, _ | .bytes _, _, _
-  | .mapSlice _, _, _ | .keyedMap _, _, _ | .range _ _, _, _ | .ptr _, _, _ | .nilPtr, _, _
-  | .struct _, _, _ | .time _, _, _ => by simp [norm]
+  | .nil, _, _, _ | .bool _, _, _, _ | .int _ _, _, _, _ | .flt _ _, _, _, _ | .str _, _, _, _ | .bytes _, _, _, _
+  | .mapSlice _, _, _, _ | .keyedMap _, _, _, _ | .range _ _, _, _, _ | .ptr _, _, _, _ | .nilPtr, _, _, _
+  | .struct _, _, _, _ | .time _, _, _, _ => by simp [norm]
 theorem Cmp.equalList_pn_left : ∀ (xs ys : List GoVal),
-    equalList (prepList (normList false xs)) ys = equalList (prepList xs) ys
+    equalList (prepList (normList d xs)) ys = equalList (prepList xs) ys
   | [], _ => rfl
   | x :: xs, [] => by simp [normList, prepList, equalList]
   | x :: xs, y :: ys => by
-    simp only [normList, prepList, equalList, equalAux_pn_left x true y, equalList_pn_left xs ys]
+    simp only [normList, prepList, equalList, equalAux_pn_left x true y (.inl rfl), equalList_pn_left xs ys]
 theorem Cmp.mapAll_pn_left : ∀ (kvs bs : List (GoVal × GoVal)),
-    mapAll (prepKVs (normKVs false kvs)) bs = mapAll (prepKVs kvs) bs
+    mapAll (prepKVs (normKVs d kvs)) bs = mapAll (prepKVs kvs) bs
   | [], _ => rfl
   | (k, v) :: r, bs => by
-    simp only [normKVs, prepKVs, mapAll, equalAux_pn_left v true, mapAll_pn_left r bs]
+    simp only [normKVs, prepKVs, mapAll, fun y => equalAux_pn_left v true y (.inl rfl), mapAll_pn_left r bs]
 end
 
 /-! ## `values.Equal`: the second operand may be normalised -/
 
 /-- `equalBody` looks at a normalised second operand through the same kind, the normalised
-    elements and the normalised entries -/
-theorem Cmp.equalBody_toLiq_right (x b : GoVal) (sK : SeqView → R Bool) (mK : Ty → List (GoVal × GoVal) → R Bool)
-    (hs : ∀ ys, sK (.vals (prepList (normList false ys))) = sK (.vals (prepList ys)))
-    (hm : ∀ kt kvs, mK kt (prepKVs (normKVs false kvs)) = mK kt (prepKVs kvs)) :
-    equalBody x (toLiq (prep (b.norm false))) sK mK = equalBody x (toLiq (prep b)) sK mK := by
-  cases b with
-  | drop w => rw [norm_drop_false]
-  | slice t ys =>
+    elements and the normalised entries (`ToLiquid` of the second operand follows a chain of drops, so a drop
+    that `norm true` resolved is resolved on the other side too) -/
+theorem Cmp.equalBody_toLiq_right (x : GoVal) (sK : SeqView → R Bool) (mK : Ty → List (GoVal × GoVal) → R Bool)
+    (hs : ∀ ys, sK (.vals (prepList (normList d ys))) = sK (.vals (prepList ys)))
+    (hm : ∀ kt kvs, mK kt (prepKVs (normKVs d kvs)) = mK kt (prepKVs kvs)) : ∀ b : GoVal,
+    equalBody x (toLiq (prep (b.norm d))) sK mK = equalBody x (toLiq (prep b)) sK mK
+  | .drop w => by
+    rw [norm]
+    split
+    · rfl
+    · simp only [prep, toLiq]
+      exact equalBody_toLiq_right x sK mK hs hm w
+  | .slice t ys => by
     simp only [norm, prep, toLiq]
     cases x <;> simp [equalBody, GoVal.isNil, joinKind, rkind, RKind.isInt, RKind.isFloat, safeEqual, structTag,
       comparableV, seqView, hs, Res.bind]
-  | array t ys =>
+  | .array t ys => by
     simp only [norm, prep, toLiq]
     cases x <;> simp [equalBody, GoVal.isNil, joinKind, rkind, RKind.isInt, RKind.isFloat, safeEqual, structTag,
       comparableV, seqView, hs, Res.bind]
-  | map kt vt kvs =>
+  | .map kt vt kvs => by
     cases hr : isRec (.map kt vt kvs) with
     | true => rw [norm_of_isRec hr]
     | false =>
@@ -108,11 +125,13 @@ theorem Cmp.equalBody_toLiq_right (x b : GoVal) (sK : SeqView → R Bool) (mK : 
       simp only [prep, toLiq]
       cases x <;> simp [equalBody, GoVal.isNil, joinKind, rkind, RKind.isInt, RKind.isFloat, safeEqual, structTag,
         comparableV, mapView, hm, Res.bind]
-  | _ => simp [norm]
+  | .nil | .bool _ | .int _ _ | .flt _ _ | .str _ | .bytes _
+  | .mapSlice _ | .keyedMap _ | .range _ _ | .ptr _ | .nilPtr
+  | .struct _ | .time _ => by simp [norm]
 
 theorem Cmp.lookupKey_pn (kk : Key) : ∀ bs : List (GoVal × GoVal),
-    (lookupKey kk (prepKVs (normKVs false bs)) = none ∧ lookupKey kk (prepKVs bs) = none) ∨
-    ∃ v, lookupKey kk (prepKVs (normKVs false bs)) = some (prep (v.norm false)) ∧ lookupKey kk (prepKVs bs) = some (prep v)
+    (lookupKey kk (prepKVs (normKVs d bs)) = none ∧ lookupKey kk (prepKVs bs) = none) ∨
+    ∃ v, lookupKey kk (prepKVs (normKVs d bs)) = some (prep (v.norm d)) ∧ lookupKey kk (prepKVs bs) = some (prep v)
   | [] => .inl ⟨rfl, rfl⟩
   | (k, v) :: r => by
     simp only [normKVs, prepKVs, lookupKey]
@@ -122,53 +141,53 @@ theorem Cmp.lookupKey_pn (kk : Key) : ∀ bs : List (GoVal × GoVal),
 
 mutual
 theorem Cmp.equalAux_pn_right : ∀ (x : GoVal) (fl : Bool) (b : GoVal),
-    equalAux fl x (prep (b.norm false)) = equalAux fl x (prep b)
+    equalAux fl x (prep (b.norm d)) = equalAux fl x (prep b)
   | .drop v, true, b => by simp only [equalAux]; exact equalAux_pn_right v true b
   | .drop v, false, b => by
     simp only [equalAux]
-    exact equalBody_toLiq_right _ b _ _ (fun _ => rfl) (fun _ _ => rfl)
+    exact equalBody_toLiq_right _ _ _ (fun _ => rfl) (fun _ _ => rfl) b
   | .ptr v, fl, b => by
     cases fl with
-    | false => simp only [equalAux]; exact equalBody_toLiq_right _ b _ _ (fun _ => rfl) (fun _ _ => rfl)
+    | false => simp only [equalAux]; exact equalBody_toLiq_right _ _ _ (fun _ => rfl) (fun _ _ => rfl) b
     | true =>
       cases v with
       | drop w => simp only [equalAux]; exact equalAux_pn_right w true b
-      | _ => simp only [equalAux]; exact equalBody_toLiq_right _ b _ _ (fun _ => rfl) (fun _ _ => rfl)
+      | _ => simp only [equalAux]; exact equalBody_toLiq_right _ _ _ (fun _ => rfl) (fun _ _ => rfl) b
   | .slice t xs, fl, b => by
     simp only [equalAux]
-    refine equalBody_toLiq_right _ b _ _ (fun ys => ?_) (fun _ _ => rfl)
+    refine equalBody_toLiq_right _ _ _ (fun ys => ?_) (fun _ _ => rfl) b
     simp only [seqVals, prepList_length, normList_len, equalList_pn_right xs ys]
   | .array t xs, fl, b => by
     simp only [equalAux]
-    refine equalBody_toLiq_right _ b _ _ (fun ys => ?_) (fun _ _ => rfl)
+    refine equalBody_toLiq_right _ _ _ (fun ys => ?_) (fun _ _ => rfl) b
     simp only [seqVals, prepList_length, normList_len, equalList_pn_right xs ys]
   | .mapSlice kvs, fl, b => by
     simp only [equalAux]
-    refine equalBody_toLiq_right _ b _ _ (fun ys => ?_) (fun _ _ => rfl)
+    refine equalBody_toLiq_right _ _ _ (fun ys => ?_) (fun _ _ => rfl) b
     simp only [seqItems, prepList_length, normList_len]
   | .map kt vt kvs, fl, b => by
     simp only [equalAux]
-    refine equalBody_toLiq_right _ b _ _ (fun _ => rfl) (fun kt' bs => ?_)
+    refine equalBody_toLiq_right _ _ _ (fun _ => rfl) (fun kt' bs => ?_) b
     simp only [mapEntries, prepKVs_length, normKVs_len, mapAll_pn_right kvs bs]
-  | .bytes s, fl, b => by simp only [equalAux]; exact equalBody_toLiq_right _ b _ _ (fun _ => rfl) (fun _ _ => rfl)
-  | .keyedMap fs, fl, b => by simp only [equalAux]; exact equalBody_toLiq_right _ b _ _ (fun _ => rfl) (fun _ _ => rfl)
-  | .nil, fl, b => by simp only [equalAux]; exact equalBody_toLiq_right _ b _ _ (fun _ => rfl) (fun _ _ => rfl)
-  | .bool _, fl, b => by simp only [equalAux]; exact equalBody_toLiq_right _ b _ _ (fun _ => rfl) (fun _ _ => rfl)
-  | .int _ _, fl, b => by simp only [equalAux]; exact equalBody_toLiq_right _ b _ _ (fun _ => rfl) (fun _ _ => rfl)
-  | .flt _ _, fl, b => by simp only [equalAux]; exact equalBody_toLiq_right _ b _ _ (fun _ => rfl) (fun _ _ => rfl)
-  | .str _, fl, b => by simp only [equalAux]; exact equalBody_toLiq_right _ b _ _ (fun _ => rfl) (fun _ _ => rfl)
-  | .range _ _, fl, b => by simp only [equalAux]; exact equalBody_toLiq_right _ b _ _ (fun _ => rfl) (fun _ _ => rfl)
-  | .nilPtr, fl, b => by simp only [equalAux]; exact equalBody_toLiq_right _ b _ _ (fun _ => rfl) (fun _ _ => rfl)
-  | .struct _, fl, b => by simp only [equalAux]; exact equalBody_toLiq_right _ b _ _ (fun _ => rfl) (fun _ _ => rfl)
-  | .time _, fl, b => by simp only [equalAux]; exact equalBody_toLiq_right _ b _ _ (fun _ => rfl) (fun _ _ => rfl)
+  | .bytes s, fl, b => by simp only [equalAux]; exact equalBody_toLiq_right _ _ _ (fun _ => rfl) (fun _ _ => rfl) b
+  | .keyedMap fs, fl, b => by simp only [equalAux]; exact equalBody_toLiq_right _ _ _ (fun _ => rfl) (fun _ _ => rfl) b
+  | .nil, fl, b => by simp only [equalAux]; exact equalBody_toLiq_right _ _ _ (fun _ => rfl) (fun _ _ => rfl) b
+  | .bool _, fl, b => by simp only [equalAux]; exact equalBody_toLiq_right _ _ _ (fun _ => rfl) (fun _ _ => rfl) b
+  | .int _ _, fl, b => by simp only [equalAux]; exact equalBody_toLiq_right _ _ _ (fun _ => rfl) (fun _ _ => rfl) b
+  | .flt _ _, fl, b => by simp only [equalAux]; exact equalBody_toLiq_right _ _ _ (fun _ => rfl) (fun _ _ => rfl) b
+  | .str _, fl, b => by simp only [equalAux]; exact equalBody_toLiq_right _ _ _ (fun _ => rfl) (fun _ _ => rfl) b
+  | .range _ _, fl, b => by simp only [equalAux]; exact equalBody_toLiq_right _ _ _ (fun _ => rfl) (fun _ _ => rfl) b
+  | .nilPtr, fl, b => by simp only [equalAux]; exact equalBody_toLiq_right _ _ _ (fun _ => rfl) (fun _ _ => rfl) b
+  | .struct _, fl, b => by simp only [equalAux]; exact equalBody_toLiq_right _ _ _ (fun _ => rfl) (fun _ _ => rfl) b
+  | .time _, fl, b => by simp only [equalAux]; exact equalBody_toLiq_right _ _ _ (fun _ => rfl) (fun _ _ => rfl) b
 theorem Cmp.equalList_pn_right : ∀ (xs ys : List GoVal),
-    equalList xs (prepList (normList false ys)) = equalList xs (prepList ys)
+    equalList xs (prepList (normList d ys)) = equalList xs (prepList ys)
   | [], _ => by simp [equalList]
   | x :: xs, [] => rfl
   | x :: xs, y :: ys => by
     simp only [normList, prepList, equalList, equalAux_pn_right x true y, equalList_pn_right xs ys]
 theorem Cmp.mapAll_pn_right : ∀ (as bs : List (GoVal × GoVal)),
-    mapAll as (prepKVs (normKVs false bs)) = mapAll as (prepKVs bs)
+    mapAll as (prepKVs (normKVs d bs)) = mapAll as (prepKVs bs)
   | [], _ => by simp [mapAll]
   | (k, v) :: r, bs => by
     simp only [mapAll, mapIndex]
@@ -237,27 +256,30 @@ theorem Cmp.strip_prep (v : GoVal) : strip (prep v) = prep v.unwrap := by
 
 /-- `values.Equal` on prepared operands depends on their normal forms only -/
 theorem Cmp.equal_prep_norm (a b : GoVal) :
-    equal (prep (a.norm false)) (prep (b.norm false)) = equal (prep a) (prep b) := by
+    equal (prep (a.norm d)) (prep (b.norm d)) = equal (prep a) (prep b) := by
   unfold equal
-  rw [equalAux_pn_left, equalAux_pn_right]
+  rw [equalAux_pn_left _ _ _ (.inl rfl), equalAux_pn_right]
 
-theorem Cmp.equal_prep_repEq {a a' b b' : GoVal} (ha : RepEq false a a') (hb : RepEq false b b') :
+theorem Cmp.equal_prep_repEq {a a' b b' : GoVal} (ha : RepEq d a a') (hb : RepEq d b b') :
     equal (prep a) (prep b) = equal (prep a') (prep b') := by
-  rw [← equal_prep_norm a b, ← equal_prep_norm a' b', ha, hb]
+  rw [← equal_prep_norm (d := d) a b, ← equal_prep_norm (d := d) a' b', ha, hb]
 
 /-- the `==` operator -/
 theorem Cmp.opEq_prep (a b : GoVal) : opEq (prep a) (prep b) = equalAux false (prep a.unwrap) (prep b.unwrap) := by
   rw [opEq_eq, equalAux_false, ← strip_prep, ← strip_prep, toLiq_strip]
 
-theorem Cmp.opEq_prep_vrel {a a' b b' : GoVal} (ha : VRel false a a') (hb : VRel false b b') :
+theorem Cmp.opEq_prep_vrel {a a' b b' : GoVal} (ha : VRel d a a') (hb : VRel d b b') :
     opEq (prep a) (prep b) = opEq (prep a') (prep b') := by
-  rw [opEq_prep, opEq_prep, ← equalAux_pn_left, ← equalAux_pn_right, ha, hb, equalAux_pn_left, equalAux_pn_right]
+  have na : noDrop a.unwrap = true := unwrap_noDrop a
+  have na' : noDrop a'.unwrap = true := unwrap_noDrop a'
+  rw [opEq_prep, opEq_prep, ← equalAux_pn_left (d := d) _ _ _ (.inr na), ← equalAux_pn_right (d := d), ha, hb,
+    equalAux_pn_left _ _ _ (.inr na'), equalAux_pn_right]
 
 /-! ## `values.Less` only orders scalars -/
 
-theorem Cmp.lessTL_pn_left (u v : GoVal) : lessTL (prep (u.norm false)) v = lessTL (prep u) v := by
+theorem Cmp.lessTL_pn_left (u v : GoVal) (hu : noDrop u = true) : lessTL (prep (u.norm d)) v = lessTL (prep u) v := by
   cases u with
-  | drop w => rw [norm_drop_false]
+  | drop w => simp [noDrop] at hu
   | slice t xs =>
     simp only [norm, prep]
     cases v <;> simp [lessTL, GoVal.isNil, joinKind, rkind, RKind.isInt, RKind.isFloat]
@@ -273,9 +295,9 @@ theorem Cmp.lessTL_pn_left (u v : GoVal) : lessTL (prep (u.norm false)) v = less
       cases v <;> simp [lessTL, GoVal.isNil, joinKind, rkind, RKind.isInt, RKind.isFloat]
   | _ => simp [norm]
 
-theorem Cmp.lessTL_pn_right (u v : GoVal) : lessTL u (prep (v.norm false)) = lessTL u (prep v) := by
+theorem Cmp.lessTL_pn_right (u v : GoVal) (hv : noDrop v = true) : lessTL u (prep (v.norm d)) = lessTL u (prep v) := by
   cases v with
-  | drop w => rw [norm_drop_false]
+  | drop w => simp [noDrop] at hv
   | slice t xs =>
     simp only [norm, prep]
     cases u <;> simp [lessTL, GoVal.isNil, joinKind, rkind, RKind.isInt, RKind.isFloat]
@@ -294,30 +316,31 @@ theorem Cmp.lessTL_pn_right (u v : GoVal) : lessTL u (prep (v.norm false)) = les
 theorem Cmp.opLt_prep (a b : GoVal) : opLt (prep a) (prep b) = lessTL (prep a.unwrap) (prep b.unwrap) := by
   rw [opLt_eq, strip_prep, strip_prep]
 
-theorem Cmp.opLt_prep_vrel {a a' b b' : GoVal} (ha : VRel false a a') (hb : VRel false b b') :
+theorem Cmp.opLt_prep_vrel {a a' b b' : GoVal} (ha : VRel d a a') (hb : VRel d b b') :
     opLt (prep a) (prep b) = opLt (prep a') (prep b') := by
-  rw [opLt_prep, opLt_prep, ← lessTL_pn_left, ← lessTL_pn_right, ha, hb, lessTL_pn_left, lessTL_pn_right]
+  rw [opLt_prep, opLt_prep, ← lessTL_pn_left (d := d) _ _ (unwrap_noDrop a), ← lessTL_pn_right (d := d) _ _ (unwrap_noDrop b),
+    ha, hb, lessTL_pn_left _ _ (unwrap_noDrop a'), lessTL_pn_right _ _ (unwrap_noDrop b')]
 
 /-! ## `contains` -/
 
 theorem Cmp.containsList_pn_left (e : GoVal) : ∀ xs : List GoVal,
-    containsList (prepList (normList false xs)) e = containsList (prepList xs) e
+    containsList (prepList (normList d xs)) e = containsList (prepList xs) e
   | [] => rfl
   | x :: xs => by
-    simp only [normList, prepList, containsList, equal, equalAux_pn_left x true e, containsList_pn_left e xs]
+    simp only [normList, prepList, containsList, equal, equalAux_pn_left x true e (.inl rfl), containsList_pn_left e xs]
 
 theorem Cmp.containsList_pn_right (e : GoVal) : ∀ xs : List GoVal,
-    containsList xs (prep (e.norm false)) = containsList xs (prep e)
+    containsList xs (prep (e.norm d)) = containsList xs (prep e)
   | [] => rfl
   | x :: xs => by
     simp only [containsList, equal, equalAux_pn_right x true e, containsList_pn_right e xs]
 
 theorem Cmp.lookupKey_pn_isSome (kk : Key) (bs : List (GoVal × GoVal)) :
-    (lookupKey kk (prepKVs (normKVs false bs))).isSome = (lookupKey kk (prepKVs bs)).isSome := by
+    (lookupKey kk (prepKVs (normKVs d bs))).isSome = (lookupKey kk (prepKVs bs)).isSome := by
   rcases lookupKey_pn kk bs with ⟨h1, h2⟩ | ⟨w, h1, h2⟩ <;> rw [h1, h2] <;> rfl
 
 theorem Cmp.mapFind_pn_isSome (k : GoVal) : ∀ bs : List (GoVal × GoVal),
-    (mapFind (prepKVs (normKVs false bs)) k).isSome = (mapFind (prepKVs bs) k).isSome
+    (mapFind (prepKVs (normKVs d bs)) k).isSome = (mapFind (prepKVs bs) k).isSome
   | [] => rfl
   | (k0, v) :: r => by
     have ih := Cmp.mapFind_pn_isSome k r
@@ -333,10 +356,10 @@ theorem Cmp.convertKey_container {e : GoVal} (h : rigidHead e = false) (hd : noD
   cases e <;> simp [rigidHead, noDrop] at h hd <;> cases kt <;> simp [convertKey]
 
 /-- the haystack may be normalised -/
-theorem Cmp.containsW_pn_left (u e : GoVal) :
-    containsW (wrapOf (prep (u.norm false))) e = containsW (wrapOf (prep u)) e := by
+theorem Cmp.containsW_pn_left (u e : GoVal) (hu : noDrop u = true) :
+    containsW (wrapOf (prep (u.norm d))) e = containsW (wrapOf (prep u)) e := by
   cases u with
-  | drop w => rw [norm_drop_false]
+  | drop w => simp [noDrop] at hu
   | slice t xs =>
     simp only [norm, prep, wrapOf, valueOf, containsW, seqView, bind, Res.bind, containsList_pn_left e xs]
   | array t xs =>
@@ -382,14 +405,14 @@ theorem Cmp.mapSliceContains_array (t : Ty) (ys : List GoVal) :
 
 /-- the needle may be normalised, unless the model makes no claim (a fixed-array needle against
     a fixed-array key of an ordered map: `comparableV`) -/
-theorem Cmp.containsW_pn_right (w : Wrapper) (e : GoVal) :
-    containsW w (prep e) = containsW w (prep (e.norm false)) ∨ ∃ m, containsW w (prep e) = .unmodelled m := by
+theorem Cmp.containsW_pn_right (w : Wrapper) (e : GoVal) (he : noDrop e = true) :
+    containsW w (prep e) = containsW w (prep (e.norm d)) ∨ ∃ m, containsW w (prep e) = .unmodelled m := by
   cases e with
-  | drop v => rw [norm_drop_false]; exact .inl rfl
+  | drop v => simp [noDrop] at he
   | slice t ys =>
     simp only [norm, prep]
     cases w with
-    | array v => left; simp only [containsW]; have := containsList_pn_right (.slice t ys); simp only [norm, prep] at this; simp only [this]
+    | array v => left; simp only [containsW]; have := containsList_pn_right (d := d) (.slice t ys); simp only [norm, prep] at this; simp only [this]
     | mapSlice kvs => left; simp only [containsW, mapSliceContains_false (safeEqual_slice _ _)]
     | string v => cases v <;> simp [containsW, sprintNeedle]
     | map v => left; simp only [containsW, GoVal.isNil, Cmp.convertKey_container (e := GoVal.slice _ _) rfl rfl]
@@ -397,7 +420,7 @@ theorem Cmp.containsW_pn_right (w : Wrapper) (e : GoVal) :
   | array t ys =>
     simp only [norm, prep]
     cases w with
-    | array v => left; simp only [containsW]; have := containsList_pn_right (.array t ys); simp only [norm, prep] at this; simp only [this]
+    | array v => left; simp only [containsW]; have := containsList_pn_right (d := d) (.array t ys); simp only [norm, prep] at this; simp only [this]
     | mapSlice kvs =>
       simp only [containsW, mapSliceContains_false (safeEqual_slice _ _)]
       rcases mapSliceContains_array t (prepList ys) kvs with h | ⟨m, h⟩
@@ -413,7 +436,7 @@ theorem Cmp.containsW_pn_right (w : Wrapper) (e : GoVal) :
       rw [norm_map_nonrec hr]
       simp only [prep]
       cases w with
-      | array v => left; simp only [containsW]; have := containsList_pn_right (.map kt vt kvs); rw [norm_map_nonrec hr] at this; simp only [prep] at this; simp only [this]
+      | array v => left; simp only [containsW]; have := containsList_pn_right (d := d) (.map kt vt kvs); rw [norm_map_nonrec hr] at this; simp only [prep] at this; simp only [this]
       | mapSlice kvs' => left; simp only [containsW, mapSliceContains_false (safeEqual_map _ _ _)]
       | string v => cases v <;> simp [containsW, sprintNeedle]
       | map v => left; simp only [containsW, GoVal.isNil, Cmp.convertKey_container (e := GoVal.map _ _ _) rfl rfl]
@@ -424,14 +447,14 @@ theorem Cmp.opContains_prep (a b : GoVal) :
     opContains (prep a) (prep b) = containsW (wrapOf (prep a.unwrap)) (prep b.unwrap) := by
   rw [opContains_eq, strip_prep, strip_prep]
 
-theorem Cmp.opContains_prep_vrel {a a' b b' : GoVal} (ha : VRel false a a') (hb : VRel false b b') :
+theorem Cmp.opContains_prep_vrel {a a' b b' : GoVal} (ha : VRel d a a') (hb : VRel d b b') :
     RRel true Eq (opContains (prep a) (prep b)) (opContains (prep a') (prep b')) := by
   rw [opContains_prep, opContains_prep]
-  have hx : containsW (wrapOf (prep (a.unwrap.norm false))) (prep (b.unwrap.norm false)) =
-      containsW (wrapOf (prep (a'.unwrap.norm false))) (prep (b'.unwrap.norm false)) := by rw [ha, hb]
-  rw [containsW_pn_left, containsW_pn_left] at hx
-  rcases containsW_pn_right (wrapOf (prep a.unwrap)) b.unwrap with h1 | ⟨m, h1⟩
-  · rcases containsW_pn_right (wrapOf (prep a'.unwrap)) b'.unwrap with h2 | ⟨m, h2⟩
+  have hx : containsW (wrapOf (prep (a.unwrap.norm d))) (prep (b.unwrap.norm d)) =
+      containsW (wrapOf (prep (a'.unwrap.norm d))) (prep (b'.unwrap.norm d)) := by rw [ha, hb]
+  rw [containsW_pn_left _ _ (unwrap_noDrop a), containsW_pn_left _ _ (unwrap_noDrop a')] at hx
+  rcases containsW_pn_right (d := d) (wrapOf (prep a.unwrap)) b.unwrap (unwrap_noDrop b) with h1 | ⟨m, h1⟩
+  · rcases containsW_pn_right (d := d) (wrapOf (prep a'.unwrap)) b'.unwrap (unwrap_noDrop b') with h2 | ⟨m, h2⟩
     · rw [h1, h2, hx]; exact RRel.of_eq (fun _ => rfl) rfl
     · rw [h2]; exact RRel.unmR rfl _ _
   · rw [h1]; exact RRel.unmL rfl _ _
